@@ -620,4 +620,8 @@ func main() {
 		panic(err)
 	}
 	fmt.Printf("access: %d rows, %d functions, %d call edges, roots %v\n", len(lines), len(funcs), len(edges), rl)
+	if err := emitSrc(os.Args[1], os.Args[2]); err != nil {
+		fmt.Fprintln(os.Stderr, "src:", err)
+		os.Exit(1)
+	}
 }
